@@ -115,6 +115,27 @@ def handle : Handler := fun j => do
       | .error _ => pure none
       | .ok v => do pure (some (← strsOf v)) : Except String (Option (List Str)))
     pure (Json.mkObj [("vro", ofStrs (tableLineVro (← jstrs j "vro") lv (← jstrs j "lineTags") (← jbool j "lineKeep")))])
+  | "runTable" =>
+    let C ← ctxOfJson j
+    let lines ← (← jarr j "lines").mapM fun l => do
+      let lv ← (match l.getObjVal? "lineVro" with
+        | .ok Json.null => pure none
+        | .error _ => pure none
+        | .ok v => do pure (some (← strsOf v)) : Except String (Option (List Str)))
+      let already ← (match l.getObjVal? "already" with
+        | .ok Json.null => pure none
+        | .error _ => pure none
+        | .ok a => do
+          pure (some (⟨← jstr a "version", ← jstr a "flavor", ← jnat a "stack"⟩, ← jstrOpt a "reason")) :
+          Except String (Option (Prod × Option Str)))
+      pure ({ name := ← jstr l "name", version := ← jstrOpt l "version", vexpr := ← jstrOpt l "vexpr",
+              lineVro := lv, lineTags := ← jstrs l "lineTags", lineKeep := ← jbool l "lineKeep",
+              optional := ← jbool l "optional", already := already } : TableLine)
+    let r := runTable C (← jbool j "keep") (← jstrs j "flavors") (← jstrs j "vro") lines
+    let outJ := r.outs.map fun o => match o with
+      | .setUp h => hitToJson (some h)
+      | .failed => Json.null
+    pure (Json.mkObj [("outs", Json.arr outJ.toArray), ("raised", r.raised), ("vro", ofStrs r.vro)])
   | "cmp" => pure (Json.mkObj [("cmp", (simpleCmp (← jstr j "a") (← jstr j "b") : Int))])
   | "match" => pure (Json.mkObj [("match", simpleMatch (← jstr j "v") (← jstr j "x"))])
   | _ => throw s!"unknown op {op}"
